@@ -4,11 +4,15 @@ Property theorems only; helper lemmas are in Lemmas/C07.lean, the model in Model
 Model/Varint.lean (Go's encoding/binary varints). Constants, the five type-switch tables and the
 bodies of Errno/SetErrno/New/Reply*/Refuse*/the receiver's error branch are regenerated from
 /repo/packet/*.go, /repo/packet.go and /repo/codec/*.go into Gen/C07.lean.
+The cross-wire theorems (`C07_errno_wire`, `C07_resend`, `C07_wire_refines`) compose this model with the
+codec model of C01 (Model/Codec.lean; glue in Lemmas/C07Codec.lean): for both formats, any lawful
+environment (threshold, zlib, cipher pair) whose varint parameters are Go's varints of
+Model/Varint.lean, and any chunking of the stream.
 
 `Supported v`: every kind SetBody accepts except protobuf messages (the property's quantifier).
 `Normal b`: absent | int64 | float64 | string | bytes — what SetBody and the decoders leave in a packet.
 -/
-import Fatchoy.Lemmas.C07
+import Fatchoy.Lemmas.C07Codec
 namespace Fatchoy.C07
 open Fatchoy.Varint
 
@@ -24,6 +28,8 @@ theorem C07_valid_views : ValidViews tables := by
 theorem C07_valid_packet : ValidPacket tables := by
   unfold ValidPacket; repeat' apply And.intro
   all_goals rfl
+/-- this model's constants and the codec model's (regenerated for C01) describe the same source -/
+theorem C07_valid_codec : Consistent params C01.params := by decide
 
 /-! ### a body set from any supported value reads back through the accessor of its own kind -/
 
@@ -199,22 +205,36 @@ theorem C07_float_wire (P : Params) (hv : Valid P) (bits : BitVec 64) :
 
 /-! ### every packet a decoder can produce can be sent on again -/
 
-/-- FULL statement (pending the codec model): for the V1 and V2 decoders `D`, any stream on which
-`ReadPacket` succeeds yields a packet that `WritePacket` can encode (its body has a wire form) -/
-def C07_resend_full (P : Params) (D : Decoder) : Prop :=
-  ∀ s flag raw, D.read s = some (flag, raw) → ∃ w, bodyToBytes P (recvBody P flag raw) = .ok w
-
-/-- what is proved here: the body-level half — whatever flag byte and body bytes a decoder hands to
-the tail of `unmarshalPacketBody` (or an empty body, which both codecs skip), the resulting body has
-a wire form; hence `C07_resend_full` holds for *every* decoder of that shape. Missing: that the V1/V2
-models of `ReadPacket` are such decoders (their `read` is the codec engineer's model). -/
-theorem C07_resend_partial (P : Params) (hv : Valid P) (flag : BitVec 8) (raw : Bytes) :
+/-- body level: whatever flag byte and plain body bytes a decoder hands to the tail of
+`unmarshalPacketBody` (or an empty body, which leaves the fresh packet body-less), the resulting body
+has a wire form -/
+theorem C07_recv_body_wire (P : Params) (hv : Valid P) (flag : BitVec 8) (raw : Bytes) :
     ∃ w, bodyToBytes P (recvBody P flag raw) = .ok w :=
   let ⟨w, h, _⟩ := C07_wire_total P hv _ (recvBody_normal P flag raw)
   ⟨w, h⟩
 
-theorem C07_resend_any_decoder (P : Params) (hv : Valid P) (D : Decoder) : C07_resend_full P D :=
-  fun _ flag raw _ => C07_resend_partial P hv flag raw
+/-- FULL statement, on the codec model: whatever stream a V1 or V2 `ReadPacket` decodes successfully
+(under any environment, any chunking) yields a packet `q` that can be written again — by either
+format, under any environment: `WritePacket` returns a byte count or one of its three ordinary errors
+(reference count, frame limit, compressor), never a panic. On the way: the decoded body is a normal
+body of the C07 model with a wire form `w`, and the codec model's `BodyToBytes` produces that same `w`
+whenever its varint parameters are Go's. -/
+theorem C07_resend (P7 : Params) (hv7 : Valid P7) (P : Codec.Params) (hv : Codec.Valid01 P) (hc : Consistent P7 P)
+    (F F' : Codec.Fmt) (_hF : F = P.v1 ∨ F = P.v2) (hF' : F' = P.v1 ∨ F' = P.v2) (e e' : Codec.Env)
+    (cs : Codec.Chunks) (q : Codec.Pkt) (_hq : (Codec.readPacket P F e cs).res = .ok q) :
+    (Normal (ofPkt q).body ∧ ∃ w, bodyToBytes P7 (ofPkt q).body = .ok w ∧
+      (GoVarints e' → Codec.bodyToBytes P e' q.body = some w)) ∧
+    ((∃ n, (Codec.writePacket P F' e' q).ret = .ok n) ∨ (Codec.writePacket P F' e' q).ret = .error .refcount ∨
+      (Codec.writePacket P F' e' q).ret = .error .overflow ∨ (Codec.writePacket P F' e' q).ret = .error .compress) ∧
+    (∀ er, (Codec.writePacket P F' e' q).ret = .error er → er.isPanic = false) := by
+  have hnil : P.nilBodyEncodes = true := by
+    obtain ⟨_, _, _, _, _, _, _, _, h, _⟩ := hv7
+    rw [hc.2.2.2, h]
+  have htot := C01.C01_write_total P hv F' hF' e' q (encodable_any hnil e' q)
+  obtain ⟨w, hw, hagree⟩ := bodyToBytes_ofBody (P := P) hv7 hc q.body
+  refine ⟨⟨ofBody_normal q.body, w, hw, hagree e'⟩, htot, ?_⟩
+  intro er her
+  rcases htot with ⟨n, h⟩ | h | h | h <;> rw [h] at her <;> cases her <;> rfl
 
 /-! ### error codes -/
 
@@ -232,50 +252,10 @@ theorem C07_errno_local (P : Params) (hv : Valid P) (p : Packet) (ec : BitVec 32
 theorem C07_errno_unflagged (P : Params) (p : Packet) (h : p.flg &&& errBit P = 0) : errno P p = 0 := by
   unfold errno; simp [h]
 
-/-- FULL statement (pending the codec model): for codec ∈ {V1, V2} as wires, every int32 error code
-survives encode → decode, and a packet without the error bit reads 0 on the other side -/
-def C07_errno_wire_full (P : Params) (W : Wire) : Prop :=
-  (∀ p ec, ∃ q, received P W (setErrno P p ec) = .ok q ∧ errno P q = ec) ∧
-  (∀ p q, p.flg &&& errBit P = 0 → received P W p = .ok q → errno P q = 0)
-
-/-- what is proved here: setErrno → body bytes (zig-zag varint) → the receiver's `binary.Varint` →
-SetBody → Errno gives back the code for every int32, and 0 without the flag — over *any* faithful
-wire. Missing: `Wire.Faithful` for the V1 and V2 codec models (C01's round-trip theorem, owned by the
-codec engineer); until then the composition is covered by the harness on the real codecs. -/
-theorem C07_errno_wire_partial (P : Params) (hv : Valid P) (W : Wire) (hW : W.Faithful) :
-    C07_errno_wire_full P W := by
-  constructor
-  · intro p ec
-    have hb : bodyToBytes P (setErrno P p ec).body = .ok (putVarint (ec.signExtend 64)) :=
-      encodeInto_varint hv _
-    have hne : putVarint (ec.signExtend 64) ≠ [] := by
-      intro h0; have := (putVarint_length (ec.signExtend 64)).1; rw [h0] at this; simp at this
-    refine ⟨{ cmd := p.cmd, seq := p.seq, typ := 0, flg := p.flg ||| errBit P, node := 0,
-              body := recvBody P (p.flg ||| errBit P) (putVarint (ec.signExtend 64)),
-              refers := [], endpoint := none }, ?_, ?_⟩
-    · unfold received; rw [hb]; simp only [hW _ _]; rfl
-    · have hv1 := varint_putVarint (ec.signExtend 64) []
-      rw [List.append_nil] at hv1
-      unfold errno recvBody
-      cases hp : putVarint (ec.signExtend 64) with
-      | nil => exact absurd hp hne
-      | cons c cs =>
-        rw [hp] at hv1
-        simp only [or_and_self_right, errBit_ne_zero hv, ne_eq, not_false_eq_true, if_true,
-          hv.2.2.2.2.2.2.2.2.2, hv1, setWidth_signExtend32]
-  · intro p q hflag hq
-    unfold received at hq
-    cases hb : bodyToBytes P p.body with
-    | ok raw =>
-      rw [hb] at hq
-      simp only [hW _ _, Res.ok.injEq] at hq
-      subst hq
-      exact C07_errno_unflagged P _ hflag
-    | panic => rw [hb] at hq; cases hq
-    | unmodelled => rw [hb] at hq; cases hq
-
-/-- the same for the model's own `crossWire` (the identity wire), which is what the harness compares
-with the real V1 and V2 codecs on every generated case -/
+/-- the model's own `crossWire` (the wire reduced to "flag byte and body bytes arrive"), which is what
+the harness compares with the real V1 and V2 codecs on every generated case, and which
+`C07_wire_refines` shows the codec model to implement: setErrno → body bytes (zig-zag varint) → the
+receiver's `binary.Varint` → SetBody → Errno gives back the code, for every int32 -/
 theorem C07_errno_crosswire (P : Params) (hv : Valid P) (p : Packet) (ec : BitVec 32) :
     ∃ q, crossWire P (setErrno P p ec) = .ok q ∧ errno P q = ec ∧ q.flg = p.flg ||| errBit P := by
   have hb : bodyToBytes P (setErrno P p ec).body = .ok (putVarint (ec.signExtend 64)) :=
@@ -295,6 +275,60 @@ theorem C07_errno_crosswire (P : Params) (hv : Valid P) (p : Packet) (ec : BitVe
       rw [hp] at hv1
       simp only [or_and_self_right, errBit_ne_zero hv, ne_eq, not_false_eq_true, if_true,
         hv.2.2.2.2.2.2.2.2.2, hv1, setWidth_signExtend32]
+
+/-- the codec model implements `crossWire`: a packet whose body has a wire form (`toBody`), with
+the two codec flag bits clear and within the format's limits, written by `WritePacket` of V1 or V2
+under any lawful environment with Go's varints and followed by anything on the stream, is decoded —
+however the stream is chunked — to a packet with exactly the flag byte, body, command and sequence
+number `crossWire` computes, and the reader stops at the end of the frame -/
+theorem C07_wire_refines (P7 : Params) (hv7 : Valid P7) (P : Codec.Params) (hv : Codec.Valid01 P)
+    (hc : Consistent P7 P) (F : Codec.Fmt) (hF : F = P.v1 ∨ F = P.v2) (e : Codec.Env) (hl : e.Lawful)
+    (hg : GoVarints e) (p : Packet) (cb : Codec.Body) (hb : toBody p.body = some cb)
+    (wf : Codec.WF F (toPkt p cb)) (fit : Codec.Fits P F e (toPkt p cb)) (tail : Bytes) (cs : Codec.Chunks)
+    (hcs : Codec.flat cs = (Codec.writePacket P F e (toPkt p cb)).bytes ++ tail) :
+    ∃ q r, (Codec.readPacket P F e cs).res = .ok q ∧ Codec.flat (Codec.readPacket P F e cs).rest = tail ∧
+      crossWire P7 p = .ok r ∧ (ofPkt q).flg = r.flg ∧ (ofPkt q).body = r.body ∧
+      (ofPkt q).cmd = r.cmd ∧ (ofPkt q).seq = r.seq :=
+  codec_refines_crossWire hv7 hv hc hF hl hg hb wf fit hcs
+
+/-- FULL statement, on the codec model: for every int32 code `ec`, both formats, any lawful
+environment (compression threshold, zlib, cipher pair) with Go's varints and any chunking, the
+packet on which `SetErrno(ec)` was called — encoded by `WritePacket`, decoded by `ReadPacket` — reads
+`Errno() = ec` on the receiver's side (and the error bit arrived); a packet sent without the error
+bit reads 0. `wf`/`fit`: the caller did not set a codec bit, V2 carries ≤ 255 references, the frame
+is within the format's limit — the hypotheses of C01's round trip. -/
+theorem C07_errno_wire (P7 : Params) (hv7 : Valid P7) (P : Codec.Params) (hv : Codec.Valid01 P)
+    (hc : Consistent P7 P) (F : Codec.Fmt) (hF : F = P.v1 ∨ F = P.v2) (e : Codec.Env) (hl : e.Lawful)
+    (hg : GoVarints e) (tail : Bytes) (cs : Codec.Chunks) :
+    (∀ (p : Packet) (ec : BitVec 32),
+      let sent := toPkt (setErrno P7 p ec) (.int (ec.signExtend 64).toInt)
+      Codec.WF F sent → Codec.Fits P F e sent →
+      Codec.flat cs = (Codec.writePacket P F e sent).bytes ++ tail →
+      ∃ q, (Codec.readPacket P F e cs).res = .ok q ∧ Codec.flat (Codec.readPacket P F e cs).rest = tail ∧
+        errno P7 (ofPkt q) = ec ∧ (ofPkt q).flg = p.flg ||| errBit P7) ∧
+    (∀ (p : Packet) (cb : Codec.Body), toBody p.body = some cb → p.flg &&& errBit P7 = 0 →
+      Codec.WF F (toPkt p cb) → Codec.Fits P F e (toPkt p cb) →
+      Codec.flat cs = (Codec.writePacket P F e (toPkt p cb)).bytes ++ tail →
+      ∃ q, (Codec.readPacket P F e cs).res = .ok q ∧ Codec.flat (Codec.readPacket P F e cs).rest = tail ∧
+        errno P7 (ofPkt q) = 0) := by
+  constructor
+  · intro p ec sent wf fit hcs
+    obtain ⟨q, r, hq, hrest, hr, hflg, hbody, hcmd, _⟩ :=
+      codec_refines_crossWire (p := setErrno P7 p ec) hv7 hv hc hF hl hg rfl wf fit hcs
+    obtain ⟨r', hr', herr, hflg'⟩ := C07_errno_crosswire P7 hv7 p ec
+    rw [hr] at hr'; injection hr' with hr'; subst hr'
+    exact ⟨q, hq, hrest, by rw [errno_congr P7 hflg hbody hcmd, herr], by rw [hflg, hflg']⟩
+  · intro p cb hb hflag wf fit hcs
+    obtain ⟨q, r, hq, hrest, hr, hflg, _, _, _⟩ :=
+      codec_refines_crossWire hv7 hv hc hF hl hg hb wf fit hcs
+    refine ⟨q, hq, hrest, C07_errno_unflagged P7 _ ?_⟩
+    have : r.flg = p.flg := by
+      unfold crossWire at hr
+      cases hbb : bodyToBytes P7 p.body with
+      | ok raw => rw [hbb] at hr; injection hr with hr; rw [← hr]
+      | panic => rw [hbb] at hr; cases hr
+      | unmodelled => rw [hbb] at hr; cases hr
+    rw [hflg, this, hflag]
 
 /-! ### replies and refusals -/
 
@@ -350,6 +384,28 @@ example : errno params (setErrno params (mkNew params 77 9 0x20 (.str [1, 2])) 5
 example : ∃ q, crossWire params (setErrno params (mkNew params 77 9 0x20 .nil) (BitVec.ofInt 32 (-2147483648))) = .ok q ∧
     errno params q = BitVec.ofInt 32 (-2147483648) ∧ q.flg = 0x20 ||| errBit params :=
   C07_errno_crosswire params C07_valid _ _
+
+/-- test: `SetErrno(-70000)` on command 77 crosses the V1 and the V2 codec model (regenerated
+parameters, toy zlib, toy cipher that really encrypts the three body bytes, two bytes of the next
+frame already on the stream) and reads -70000 -/
+example : ∀ F, F = C01.params.v1 ∨ F = C01.params.v2 →
+    ∃ q, (Codec.readPacket C01.params F demoGoEnv
+        [(Codec.writePacket C01.params F demoGoEnv demoErrSent).bytes ++ [9, 9]]).res = .ok q ∧
+      errno params (ofPkt q) = BitVec.ofInt 32 (-70000) := fun F hF =>
+  let ⟨q, h1, _, h3, _⟩ := (C07_errno_wire params C07_valid C01.params C01.C01_valid C07_valid_codec F hF
+    demoGoEnv demoGoEnv_lawful demoGoEnv_go [9, 9] _).1 demoErrPacket demoErrCode
+    (by rcases hF with h | h <;> subst h <;> decide) (demoErr_fits F hF)
+    (by simp only [Codec.flat, List.flatten_cons, List.flatten_nil, List.append_nil]; rfl)
+  ⟨q, h1, h3⟩
+
+/-- test: the packet the V2 decoder produces for C01's demo frame (compressed, encrypted, two
+references) can be written again by V1 under another environment -/
+example : ∀ er, (Codec.writePacket C01.params C01.params.v1 demoGoEnv C01.demoPkt).ret = .error er → er.isPanic = false :=
+  (C07_resend params C07_valid C01.params C01.C01_valid C07_valid_codec C01.params.v2 C01.params.v1
+    (Or.inr rfl) (Or.inl rfl) Codec.demoEnv demoGoEnv
+    [(Codec.writePacket C01.params C01.params.v2 Codec.demoEnv C01.demoPkt).bytes ++ [9, 9]] C01.demoPkt
+    (C01.C01_v2_roundtrip C01.params C01.C01_valid Codec.demoEnv Codec.demoEnv_lawful C01.demoPkt (by decide) (by decide)
+      (C01.demo_fits _ (Or.inr rfl)) [9, 9] _ (by simp [Codec.flat])).1).2.2
 
 /-- test: a uint64 above MaxInt64 reads back as the same 64 bits -/
 example : ∃ r, setBody (.u64 (BitVec.ofNat 64 (2^64 - 1))) = .ok (.i64 r) ∧ r = BitVec.ofInt 64 (2^64 - 1) :=
